@@ -520,7 +520,7 @@ def witness_cases():
                  ["x,y", 'q"t', "l1\nl2"], ["a\r\nb", "x\ry,z", "k"], [" 5", "5 ", "+5"], ["inf", "-Infinity", "1"], ["None", "x", "y"],
                  ["nan", "1.5", "2"], ["true", "NA", "False"], ["1", "a", "True"], ["True", "1", "x"], ["na", "Nan", "NA "],
                  ["1e", "e3", "0x10"], ["ünï", "two words", "x\ty"], ["#c", "'", " "], ["1e 3", "1.", ".5"], ["-0", "00", "+0"],
-                 ["9223372036854775807", "-9223372036854775808", "0"], ["n/a", "NULL", "<NA>"]):
+                 ["9223372036854775807", "-9223372036854775808", "0"], ["n/a", "NULL", "<NA>"], ["a\x00b", "k", "m"]):
         yield g(three, [mk_prop("s", "str", (3,), vals, None)])
     yield g(three, [mk_prop("s", "str", (3,), ["007", "zz", "1"], mid)])                      # the non-numeric value is masked
     yield g(three, [mk_prop("s", "str", (3, 2), ["1", "a", "2", "b", "3", "c"], None)])       # component 0 is all numeric
